@@ -9,7 +9,8 @@ T = alphabets.T
 
 
 # ---- (b) a slice object held across two calls ------------------------------------------------------------------
-SLICE_OPS = ['remove', 'fill_to', 'fill_to_fail', 'transfer_in', 'transfer_out', 'transfer_in_fail', 'get_volumes']
+SLICE_OPS = ['remove', 'fill_to', 'fill_to_fail', 'transfer_in', 'transfer_out', 'transfer_in_fail', 'get_volumes',
+             'to_other_plate', 'from_other_plate']
 
 
 def _slice_call(pp, subs, world, sl, op):
@@ -25,6 +26,10 @@ def _slice_call(pp, subs, world, sl, op):
         return pp.Plate.transfer(world['A'], sl, '450 uL')  # overflows at some well
     if op == 'transfer_out':
         return pp.Container.transfer(sl, world['B'], '2 uL')
+    if op == 'to_other_plate':
+        return pp.Plate.transfer(sl, world['Q'][1, 1], '2 uL')       # the held slice as the SOURCE of a plate-to-plate transfer
+    if op == 'from_other_plate':
+        return pp.Plate.transfer(world['Q'][2, 2], sl, '1 uL')       # ... and as its destination (Q is loaded by the seed)
     if op == 'get_volumes':
         return sl.get_volumes()
     raise env.InternalError(op)
@@ -41,10 +46,14 @@ def _result_fp(r):
 _G = {}
 
 
+def _hs_seed():
+    return e1.seed_history_P() + [alphabets.T('A', 'Q', '30 uL')]
+
+
 def _held_slice_case(item):
     sel, op1, op2 = item
     pp, vidx = _G['pp'], _G['vidx']
-    subs, world = e1.build(pp, vidx, e1.W_DEFAULT, e1.seed_history_P())
+    subs, world = e1.build(pp, vidx, e1.W_DEFAULT, _hs_seed())
     plate = world['P']
     sl = plate[selectors.ev(sel)]
     fp_plate, fp_world, fp_slices = e1.exact_obj(plate), e1.exact_world(world), repr(sl.slices)
@@ -69,7 +78,7 @@ def _held_slice_case(item):
         got = _result_fp(_slice_call(pp, subs, world, sl, op2))
     except Exception as e:  # noqa
         got = 'raises ' + type(e).__name__
-    subs2, world2 = e1.build(pp, vidx, e1.W_DEFAULT, e1.seed_history_P())
+    subs2, world2 = e1.build(pp, vidx, e1.W_DEFAULT, _hs_seed())
     try:
         want = _result_fp(_slice_call(pp, subs2, world2, world2['P'][selectors.ev(sel)], op2))
     except Exception as e:  # noqa
